@@ -884,6 +884,8 @@ func jsonLines(r *rng, n int, thorough bool) []jsonLine {
 		}
 		add([]byte(d), "valid/rich")
 	}
+	// an escaped backslash followed by the letters of an HTML escape: text, not an escape
+	add([]byte(`{"a":"\\u003c","\\u0026k":["x\\u003e\\",{"b\\\\u003c":"\\\\u0026"}]}`), "valid/literal backslash-u")
 	// valid shallow lines with very many containers (a count of open containers must go down again when one closes)
 	add([]byte(`{"a":[`+strings.TrimSuffix(strings.Repeat(`[1,2],`, 12000), ",")+`]}`), "valid/12000 arrays")
 	add([]byte(`{"a":[`+strings.TrimSuffix(strings.Repeat(`{"x":[]},`, 6000), ",")+`],"b":{}}`), "valid/12000 containers")
